@@ -399,7 +399,13 @@ func (s *Set) Projection(v *simapi.View) map[string]interface{} {
 	if ro := s.ro; ro != nil {
 		reason, status := condReason(ro, "Progressing")
 		_, succ := condReason(ro, "Succeeded")
-		out["rollout"] = map[string]interface{}{"phase": simapi.Str(ro, "status.phase"), "progressing": reason + "/" + status, "succeeded": succ, "step": s.step, "state": s.state}
+		rp := map[string]interface{}{"phase": simapi.Str(ro, "status.phase"), "progressing": reason + "/" + status, "succeeded": succ}
+		if succ == "True" {
+			// the cursor of a completed release is determined by the plan; after a rollback / disabling it merely records
+			// where the user's action happened to catch the release
+			rp["step"], rp["state"] = s.step, s.state
+		}
+		out["rollout"] = rp
 	}
 	if wl := s.workload(v); wl != nil {
 		tot, ready := s.podsByImage(v)
@@ -411,6 +417,54 @@ func (s *Set) Projection(v *simapi.View) map[string]interface{} {
 		out["stableSelector"] = simapi.Path(svc, "spec.selector")
 	}
 	out["routes"] = interp.Routes(v, s.ns)
+	if h := v.Get("HorizontalPodAutoscaler", s.ns, s.S.Name+"-hpa"); h != nil {
+		out["hpaTarget"] = simapi.Str(h, "spec.scaleTargetRef.name")
+	}
+	return out
+}
+
+// ConfigProjection is the configuration (not the progress) the controllers have put in place: compared between a faulty
+// and an undisturbed run at the same logical point of the release (C06: nothing left half-configured).
+func (s *Set) ConfigProjection(v *simapi.View) map[string]interface{} {
+	out := map[string]interface{}{}
+	if wl := s.workload(v); wl != nil {
+		out["workload"] = map[string]interface{}{"replicas": simapi.IntD(wl, "spec.replicas", 1), "paused": simapi.Bool(wl, "spec.paused"), "strategy": simapi.Path(wl, "spec.strategy"),
+			"updateStrategy": simapi.Path(wl, "spec.updateStrategy"), "minReadySeconds": simapi.IntD(wl, "spec.minReadySeconds", 0), "progressDeadlineSeconds": simapi.Path(wl, "spec.progressDeadlineSeconds"),
+			"controlled": simapi.HasAnno(wl, "batchrelease.rollouts.kruise.io/control-info"), "inProgressing": simapi.HasAnno(wl, "rollouts.kruise.io/in-progressing")}
+		// ReplicaSets of the workload by image: minReadySeconds is how blue-green keeps the old revision in place
+		rs := map[string]interface{}{}
+		for _, r := range v.List("ReplicaSet", s.ns) {
+			if simapi.ControllerOwnerUID(r) != simapi.UID(wl) || simapi.IntD(r, "spec.replicas", 0) == 0 {
+				continue
+			}
+			img := ""
+			if cs := simapi.List(r, "spec.template.spec.containers"); len(cs) > 0 {
+				img = simapi.Str(cs[0], "image")
+			}
+			rs[img] = simapi.IntD(r, "spec.minReadySeconds", 0)
+		}
+		out["replicaSetMinReadySeconds"] = rs
+	}
+	canaries := []interface{}{}
+	for _, d := range v.List("Deployment", s.ns) {
+		if simapi.Label(d, "rollouts.kruise.io/canary-deployment") != "" && !simapi.Deleting(d) {
+			canaries = append(canaries, map[string]interface{}{"replicas": simapi.IntD(d, "spec.replicas", 1), "finalizers": simapi.Path(d, "metadata.finalizers")})
+		}
+	}
+	out["canaryDeployments"] = canaries
+	if br := v.Get("BatchRelease", s.ns, s.S.RolloutName()); br != nil {
+		out["batchRelease"] = map[string]interface{}{"batchPartition": simapi.Path(br, "spec.releasePlan.batchPartition"), "phase": simapi.Str(br, "status.phase"),
+			"currentBatch": simapi.IntD(br, "status.canaryStatus.currentBatch", 0), "batchState": simapi.Str(br, "status.canaryStatus.batchState")}
+	}
+	for _, n := range []string{s.stable, s.canary} {
+		if svc := v.Get("Service", s.ns, n); svc != nil {
+			out["selector/"+n] = simapi.Path(svc, "spec.selector")
+		}
+	}
+	out["routes"] = interp.Routes(v, s.ns)
+	if h := v.Get("HorizontalPodAutoscaler", s.ns, s.S.Name+"-hpa"); h != nil {
+		out["hpaTarget"] = simapi.Str(h, "spec.scaleTargetRef.name")
+	}
 	return out
 }
 
@@ -503,6 +557,11 @@ func (s *Set) c05() {
 		}
 		if got := simapi.IntD(wl, "spec.minReadySeconds", 0); got != 0 {
 			bad("minReadySeconds", got, 0)
+		}
+	}
+	if h := v.Get("HorizontalPodAutoscaler", s.ns, s.S.Name+"-hpa"); h != nil {
+		if got := simapi.Str(h, "spec.scaleTargetRef.name"); got != s.S.Name {
+			bad("hpa.scaleTargetRef.name", got, s.S.Name)
 		}
 	}
 	// converged to the user's desired revision
